@@ -89,9 +89,17 @@ _xml_prefixes = tuple(
 
 _xml_decl = encode_string("<?xml")
 
+_META_HTTP_EQUIV = r'http-equiv=["\']?Content-Type["\']?'
+_META_CONTENT = (
+    r'content=["\']?([^;]+);\s*charset=([^"\'\s/>]+)\s*["\']?'
+)
+
+# The two attributes may come in either order
 RE_META = re.compile(
-    r'\s*<meta\s+http-equiv=["\']?Content-Type["\']?'
-    r'\s+content=["\']?([^;]+);\s*charset=([^"\'\s/>]+)\s*["\']?\s*/?\s*>\s*',
+    r'\s*<meta\s+(?:' +
+    _META_HTTP_EQUIV + r'\s+' + _META_CONTENT + '|' +
+    _META_CONTENT + r'\s+' + _META_HTTP_EQUIV +
+    r')\s*/?\s*>\s*',
     re.IGNORECASE
 )
 
@@ -141,8 +149,8 @@ def detect_encoding(
 
     match = RE_META.search(body)
     if match is not None:
-        # this can be treated like tuple[str, str] since we unpack it
-        return match.groups()  # type: ignore[return-value]
+        groups = match.groups()
+        return groups[0] or groups[2], groups[1] or groups[3]
 
     return None, default_encoding
 
